@@ -2,11 +2,25 @@
 (* The token alphabet for source-text generation (C04 / C33): one representative per lexer token
    class, plus multi-byte and escape-heavy variants.  Printed once; the driver enumerates all
    sequences up to the tier's length and mutates corpus programs with the same tokens. *)
-EXTENDS Sequences, Json, TLC
+EXTENDS Sequences, Json, TLC, SequencesExt
 Tokens == << "x", "é", ".a", ".", "%m", ".\"b c\"", ".a[0]", ".a[-1]", "1", "1.5", "\"s\"", "\"é{{ x }}\"", "\"\\n\\t\\\\\"", "s'r'", "r'a'", "t'2021-01-01T00:00:00Z'",
              "\"\\u{}\"", "\"\\u{D800}\"", "\"\\u{1F600}é\"", "\"\\x\"", " ", "x.\"é\\\"\"", "x = to_string(.a)", "x.\"é\" = 2", "null", "true", "=", "==", "!=", "+", "-", "*", "/", "||", "&&", "??", "|", "|=", "!", "(", ")", "{", "}", "[", "]", ",", ":", ";",
              "\n", "if", "else", "abort", "return", "upcase", "del", "for_each", "->", "_", "#c\n", "..", "<", ">=", "\"", "'", "\\", "😀", "{{", "%" >>
 ASSUME PrintT(<<"TOKENS", ToJson(Tokens)>>)
+\* structured families the token sequences reach only rarely: closure calls with every shape of parameter list (arity too small, exact,
+\* too large, placeholders, empty), and calls with missing / surplus / unknown / repeated arguments
+CallHeads == << "for_each({\"a\": 1})", "for_each([1])", "filter([1, 2])", "map_keys({\"a\": 1})", "map_values({\"a\": 1})", "replace_with(\"ab\", r'a')",
+                "upcase(\"a\")", "del(.a)", "x = for_each(.a)", ".out = filter(array!(.items))" >>
+ParamLists == << "||", "| |", "|k|", "|k, v|", "|k, v, x|", "|_|", "|_, _|", "|_k, _v|", "|é|", "|k,|", "|, v|", "|k v|", "|1|", "|k, k|" >>
+Bodies == << "{ true }", "{ k }", "{ }", "{ v = 1; v }", "{ abort }" >>
+ClosureSources == { h \o " -> " \o p \o " " \o b : h \in {CallHeads[j] : j \in 1..Len(CallHeads)}, p \in {ParamLists[j] : j \in 1..Len(ParamLists)},
+                                                   b \in {Bodies[j] : j \in 1..Len(Bodies)} }
+ArityCalls == << "upcase()", "upcase(\"a\", \"b\")", "upcase(value: \"a\", value: \"b\")", "upcase(foo: \"a\")", "upcase(\"a\", foo: 1)", "for_each()", "for_each({}, {})",
+                 "split(\"a\")", "split(\"a\", \",\", 1, 2)", "split(pattern: \",\")", "to_string!()", "nosuchfunction(1)", "nosuchfunction!()", "upcase!(\"a\")",
+                 "del()", "del(1)", "del(.a, .b, .c)", "exists()", "exists(x)", "for_each({}) -> |k, v| { true } -> |k| { 1 }", "upcase(\"a\") -> |x| { x }" >>
+ASSUME PrintT(<<"CLOSURE_SOURCES", ToJson(SetToSeq(ClosureSources))>>)
+ASSUME PrintT(<<"ARITY_CALLS", ToJson(ArityCalls)>>)
+
 VARIABLE dummy
 Init == dummy = 0
 Next == UNCHANGED dummy
